@@ -93,6 +93,16 @@ def main(tier):
                     ratio_scalar = fac(u) / mag
                     if ppb(fac(u) / mag2) > ppb(ratio_scalar):
                         ratio_scalar = fac(u) / mag2
+                    # a pure power / reciprocal of one unit: also through the library's own conversion of the derived quantity
+                    # to the same power of the part's base unit (the exponent form of UnitDatabase.Convert)
+                    if (len(g["parts"]) == 1 and g["parts"][0]["pre"] == 1 and not isinstance(acc, float) and acc.GetQuantity().IsDerived()
+                            and db.unit_to_unit_info[g["parts"][0]["atom"]].tobase(0.0) == 0.0):        # scale-only parts (DESIGN 8)
+                        p0 = g["parts"][0]
+                        pbase = db.GetBaseUnit(db.unit_to_unit_info[p0["atom"]].quantity_type)
+                        conv = acc.GetValue([(pbase, p0["exp"])])
+                        r3 = fac(u) / conv
+                        if ppb(r3) > ppb(ratio_scalar):
+                            ratio_scalar = r3
                 except ZeroDivisionError:
                     ratio_scalar = float("nan")
                 kind = "parts"
